@@ -141,6 +141,9 @@ def run(prog, rep):
                 # the descriptor variable
                 if n["op"] == "=" and any(x.get("callee") == "shm_open" for x in calls(n["r"])):
                     fdvar = root_var(n["l"])
+                elif n["op"] == "=" and fdvar is not None and strip_casts(n["l"])["k"] == "ref" and strip_casts(n["r"]) is not None \
+                        and strip_casts(n["r"])["k"] == "ref" and strip_casts(n["r"])["name"] == fdvar:
+                    fdvar = strip_casts(n["l"])["name"]          # the descriptor is handed on (`return fd;` of a helper, `fd = opened;`)
         facts2 = guards.transfer(facts, stmt, stable=("p_error_get_last_system()",))
         if stmt["k"] == "ret":
             if fdst == "open":
@@ -297,7 +300,17 @@ def sysv(prog, rep):
     u = prog.units.get("pshm-sysv.c")
     if u is None:
         raise AnalysisBroken("pshm-sysv.c was not analysed")
-    ch = u.fn("pp_shm_create_handle", raw=True)          # as written: the clean-up helper's resets are not part of the protocol
+    # helpers inlined, except the clean-up role (the static function that detaches): its resets are not part of the protocol
+    cl_ = set(f.name for f in u.functions.values() if any(c.get("callee") == "shmdt" for (b, i, c) in f.calls()))
+    grew = True
+    while grew:          # ... or reaches it through another static helper
+        grew = False
+        for f in u.functions.values():
+            if f.name not in cl_ and f.static and any(c.get("callee") in cl_ for (b, i, c) in f.calls()):
+                cl_.add(f.name)
+                grew = True
+    cleaners = tuple(sorted(n for n in cl_ if u.functions[n].static))
+    ch = u.fn("pp_shm_create_handle", raw=True).inlined(skip=cleaners)
     sp = ch.param_names()[0]
     probs = []
     seen = {"excl": 0, "fallback": 0, "size": 0, "sem": 0}
@@ -333,8 +346,7 @@ def sysv(prog, rep):
                 if guards.key(c["args"][0]) != "%s->platform_key" % sp or guards.eval_const(c["args"][1], facts) != 1:
                     probs.append("line %d: the lock semaphore is not opened on the segment's key with value 1" % line(c))
                 mode = guards.eval_const(c["args"][2], facts)
-                ex = guards.lookup(facts, "is_exists")
-                exv = [guards.lookup(facts, fk) for (fk, fop, fv) in facts if fk.endswith("exists") and fop == "=="]
+                created = gets == 1          # the call is reached with a valid handle: it is the creator's iff no fallback lookup was needed
                 if mode is None or (mode == 1) != (created is True):
                     probs.append("line %d: the lock semaphore is opened in %s mode on a path where this handle %s the segment: %s" % (
                         line(c), {0: "OPEN", 1: "CREATE"}.get(mode, "an unknown"), "created" if created else "did not create",
@@ -345,7 +357,10 @@ def sysv(prog, rep):
                 if l is not None and l["k"] == "member" and l["field"] == "size" and root_var(l) == sp and gets > 0:
                     seen["size"] += 1
                     r = strip_casts(n["r"])
-                    if not (r is not None and r["k"] == "member" and r["field"] == "shm_segsz"):
+                    # (the clamp "report no more than the caller asked for" - a store that can only lower the size - is p_shm_new's
+                    # business in both back ends and is judged by C08.4, wherever a refactoring puts it)
+                    clamp = any(fk == "(%s->size>%s)" % (sp, guards.key(n["r"])) and ((fop == "==" and fv == 1) or (fop == "!=" and fv == 0)) for (fk, fop, fv) in facts)
+                    if not (r is not None and r["k"] == "member" and r["field"] == "shm_segsz") and not clamp:
                         probs.append("line %d: the reported size is %s, not the size the kernel reports for the segment (shm_segsz)" % (line(n), show(n["r"])))
         return [(guards.transfer(facts, stmt, kill_calls=False), gets, created)]
 
